@@ -85,7 +85,7 @@ print(json.dumps([v(*x) for x in json.loads(sys.argv[2])]))
 """
 
 
-def cold_orders(rep):
+def cold_orders(rep, prop="C04"):
     """'every payload that satisfies the schema is written' must not depend on what the process validated before:
     for the three decimal-validated 1.6 messages, in a FRESH interpreter each, an integer-only payload, a payload
     with a one-decimal float, one with two decimals -- in both orders of the first two"""
@@ -116,7 +116,7 @@ def cold_orders(rep):
             except (ValueError, IndexError):
                 got = ["no output: " + pr.stderr[-200:]]
             if got != want:
-                rep.violation("C04:cold-order:%s:%s:%s" % (mtype, action, order),
+                rep.violation("%s:cold-order:%s:%s:%s" % (prop, mtype, action, order),
                               "fresh interpreter, 1.6 %s %s, payloads validated in the order %s: verdicts %r, expected %r" % (
                                   mtype, action, order, got, want),
                               {"kind": "cold-order", "mtype": mtype, "action": action, "order": order, "payloads": seq,
@@ -133,7 +133,7 @@ def run(rep, tier, seed):
         "then invalid results through route_message and invalid requests through call(); distinct by (schema, payload)"))
 
 
-def replay(d):
+def replay_cold(d):
     if d.get("kind") == "cold-order":
         import subprocess
         arg = json.dumps([[d["mtype"], d["action"], p] for p in d["payloads"]])
@@ -143,6 +143,12 @@ def replay(d):
         print("verdicts in a fresh interpreter:", got, "expected:", d["expected"])
         print("HOLDS" if got == d["expected"] else "FAILS")
         return 0 if got == d["expected"] else 1
+    return None
+
+
+def replay(d):
+    if d.get("kind") == "cold-order":
+        return replay_cold(d)
     if d.get("kind") in ("verdict", "correspondence") and "payload" in d:
         v = V.impl_verdict(d["version"], d["mtype"], d["action"], d["payload"])
         tags = d.get("built_to_violate")
